@@ -36,7 +36,7 @@ def norm(payload, dyn, L):
 def rx_setup(r, pipe, aw):
     """(ops to open `pipe` for reading, the address a peer must transmit to)"""
     base = bytes(r.randrange(1, 255) for _ in range(5))
-    first = r.randrange(1, 255)
+    first = r.choice([x for x in range(1, 255) if x != base[0]])   # a pipe of its own, not a second name for pipe 1
     if pipe < 2:
         return [("open_rx_pipe", pipe, base)], base
     return [("open_rx_pipe", 1, base), ("open_rx_pipe", pipe, bytes([first]))], bytes([first]) + base[1:]
